@@ -226,7 +226,7 @@ func specials(seed uint64) []*Source {
 // foreignTwins: two tiny models that import a byte-identical Swagger document under the
 // same application name but different packages; each result must carry its own package.
 func foreignTwins() []*Source {
-	doc := "swagger: \"2.0\"\ninfo:\n  title: Api\n  version: \"1\"\npaths:\n  /p:\n    get:\n      responses:\n        200:\n          description: ok\n"
+	doc := "swagger: \"2.0\"\ninfo:\n  title: Api\n  version: \"1\"\npaths:\n  /p:\n    get:\n      produces: [application/json]\n      responses:\n        200:\n          description: ok\n          schema:\n            type: string\n        404:\n          description: none\n          schema:\n            type: integer\n"
 	mk := func(team, other string) *Source {
 		return &Source{Name: "main.sysl", Files: map[string]string{
 			"main.sysl": "import api.yaml as " + team + ".Api\n\nMain:\n    E: ...\n", "api.yaml": doc},
@@ -359,6 +359,9 @@ func check(pl *Plan, o *runOut, seq map[*Source]string, cnt core.Counters) []V {
 		}
 		if bad || len(src.ExpectHas) > 0 {
 			cnt.Inc("results_checked_against_own_text")
+			if !bad && want != "" && got != want {
+				vs = append(vs, V{"result-differs-from-sequential", fmt.Sprintf("task %d (%s): concurrent result differs from the result of compiling it alone: %s", i, src.Name, firstDiff(want, got))})
+			}
 			continue
 		}
 		if got == want {
@@ -481,10 +484,52 @@ func worker(t *testing.T, c core.Cfg) {
 		}
 	}()
 	twinsDone := race || c.Worker != 0
+	crowdDone := !(c.Worker == 1 && !race) && !(race && c.Worker == 0 && c.Tier == "thorough")
 	for g := c.Worker; time.Now().Before(deadline) && len(part.Violations) < 6; g += nw {
 		seed := core.Derive(c.Seed, "C07", c.Mode, "plan", fmt.Sprint(g))
 		r := core.NewRand(seed)
 		pl := &Plan{Seed: seed}
+		if !crowdDone {
+			// once per run: a crowd of 66-96 tiny compilations at once (the property's
+			// quantifier goes to 64 goroutines): thresholds on the number of live lexers,
+			// parsers or pooled objects only show in a crowd
+			crowdDone = true
+			cp := &Plan{Seed: seed, Policy: "uniform", Quantum: 1}
+			if race {
+				cp.Policy, cp.Quantum = "waves", 3
+			}
+			sp := specials(seed)
+			n := r.Range(66, 96)
+			for i := 0; i < n; i++ {
+				if i%3 == 0 {
+					cp.Sources = append(cp.Sources, sp[i%len(sp)])
+				} else {
+					cp.Sources = append(cp.Sources, generated(core.Derive(seed, "crowd", fmt.Sprint(i%7)), false))
+				}
+			}
+			if !race {
+				for _, s := range cp.Sources {
+					seqOf(s)
+				}
+			}
+			o := runPlan(t, cp, makePicker(cp, r.Fork()))
+			if race {
+				for _, s := range cp.Sources {
+					seqOf(s)
+				}
+			}
+			part.Evaluations++
+			part.Cases++
+			part.Counters.Inc("crowd_plans")
+			part.Counters.Add("crowd_tasks", int64(n))
+			for _, v := range check(cp, o, seq, part.Counters) {
+				p := filepath.Join(core.ReplayDir(), fmt.Sprintf("C07-%s-crowd-%s-%d.json", c.Mode, core.SafeName(v.Class), seed))
+				cp.Policy, cp.Picks = "trace", o.Picks
+				_ = core.WriteJSON(p, ReplayFile{Property: "C07", Engine: "compilesim", Mode: c.Mode, Class: v.Class, Detail: v.Detail, Plan: cp})
+				part.Violations = append(part.Violations, core.ViolationRec{Class: v.Class, Detail: v.Detail + " [crowd plan]", Replay: p, Seed: seed})
+				break
+			}
+		}
 		if !twinsDone {
 			// once per run: the slow foreign-import path (an arr.ai conversion takes seconds)
 			twinsDone = true
@@ -493,6 +538,9 @@ func worker(t *testing.T, c core.Cfg) {
 			part.Evaluations++
 			part.Cases++
 			part.Counters.Inc("foreign_twin_plans")
+			for _, s := range tp.Sources {
+				seqOf(s) // compiled twice more, alone: repeated compilations must agree
+			}
 			for _, v := range check(tp, o, seq, part.Counters) {
 				p := filepath.Join(core.ReplayDir(), fmt.Sprintf("C07-%s-%s-%d.json", c.Mode, core.SafeName(v.Class), seed))
 				tp.Policy, tp.Picks = "trace", o.Picks
